@@ -710,7 +710,7 @@ def replace(eq: str, term: str, replacement: str, rhs_only: tp.Optional[bool] = 
     """
 
     # define follow-up operations/signs that are allowed to follow directly after term in eq
-    allowed_follow_ops = '-+=*/^<>=!.%@[]():, '
+    allowed_follow_ops = "-+=*/^<>=!.%@[]():, '"
 
     # replace every proper appearance of term in eq with replacement
     ################################################################
